@@ -316,6 +316,38 @@ class InMemoryRepository(BaseRepository):
         self.validate_namespace(namespace)
         return self._repository[namespace]['qualifiers']
 
+    def snapshot(self):
+        """
+        Return a snapshot of the current content of the CIM repository, for
+        use with :meth:`restore`.
+
+        The snapshot records the namespaces and for each object store the
+        set of objects in the store. The CIM objects themselves are not
+        copied, because the object stores never modify a stored object in
+        place (they only add, replace and delete objects).
+        """
+        # pylint: disable=protected-access
+        return [(ns, [(key, store, store._data.copy())
+                      for key, store in stores.items()])
+                for ns, stores in self._repository.items()]
+
+    def restore(self, snapshot):
+        """
+        Restore the content of the CIM repository to the state recorded in a
+        snapshot returned by :meth:`snapshot`.
+
+        This is used to undo the changes of an operation that consists of
+        multiple changes to the CIM repository and failed after some of them.
+        """
+        # pylint: disable=protected-access
+        repository = NocaseDict()
+        for ns, stores in snapshot:
+            repository[ns] = {}
+            for key, store, data in stores:
+                store._data = data
+                repository[ns][key] = store
+        self._repository = repository
+
     def load(self, other):
         """
         Replace the data in this object with the data from the other object.
